@@ -11,6 +11,7 @@ import (
 	"os/exec"
 	"strings"
 	"sync"
+	"syscall"
 	"time"
 
 	"git.sr.ht/~rockorager/vaxis/ansi"
@@ -24,6 +25,10 @@ import (
 func main() {
 	if len(os.Args) >= 4 && os.Args[1] == "-panicchild" {
 		panicChild(os.Args[2], os.Args[3])
+		return
+	}
+	if len(os.Args) >= 4 && os.Args[1] == "-sigchild" {
+		sigChild(os.Args[2], os.Args[3])
 		return
 	}
 	hx.Main("C04", run)
@@ -72,6 +77,133 @@ func panicChild(maskStr, dm string) {
 	vx.VerifInjectSequence(ansi.CSI{Final: 't', Parameters: [][]int{{}, {}, {}}})
 	time.Sleep(10 * time.Second) // failure timeout only: the re-panic ends the process long before this
 	os.Exit(4)                   // the input goroutine did not die: no panic happened
+}
+
+// sigChild (round 3): a Vaxis WITH its signal handlers (Options.NoSignals unset: setupSignals runs) in a
+// process of its own; the parent sends a real SIGTERM.  The library must have installed its handler for
+// every capability set — the process then survives the signal, the input goroutine's kill arm runs Close
+// and the terminal is restored; a process that dies by the signal leaves the terminal as it was.
+func sigChild(maskStr, dm string) {
+	var mask uint32
+	fmt.Sscanf(maskStr, "%d", &mask)
+	caps := fakeconsole.FromMask(mask)
+	fc := fakeconsole.New(12, 5, caps)
+	out := bufio.NewWriter(os.Stdout)
+	var mu sync.Mutex
+	fc.Mirror = func(p []byte) {
+		mu.Lock()
+		fmt.Fprintf(out, "W %s\n", hx.Hex(string(p)))
+		out.Flush()
+		mu.Unlock()
+	}
+	vx, err := vaxis.New(vaxis.Options{WithConsole: fc, DisableMouse: dm == "1"})
+	if err != nil {
+		os.Exit(3)
+	}
+	if !startupSawReplies(vx, caps) {
+		os.Exit(5)
+	}
+	c, kf, ucs, app := vx.VerifCaps()
+	env := []byte{b01(c["kittyKeyboard"]), b01(c["sixels"]), b01(c["unicodeCore"]), b01(c["explicitWidth"]), b01(c["colorThemeUpdates"]),
+		b01(c["inBandResize"]), b01(c["osc176"]), b01(c["synchronizedUpdate"]), b01(c["disableMouse"])}
+	mu.Lock()
+	fmt.Fprintf(out, "E env %s %d %d %s %s\n", env, kf, ucs, hx.Hex(app), origVals(caps))
+	out.Flush()
+	mu.Unlock()
+	vx.Window().SetCell(1, 1, vaxis.Cell{Character: vaxis.Character{Grapheme: "x"}, Style: vaxis.Style{Attribute: vaxis.AttrBold}})
+	vx.ShowCursor(2, 2, vaxis.CursorBeam)
+	vx.Render()
+	mu.Lock()
+	fmt.Fprintf(out, "P\n") // everything after this line is written by the signal path
+	out.Flush()
+	mu.Unlock()
+	select {
+	case <-vx.VerifC03QuitChan(): // Close has run to its end on the input goroutine
+		os.Exit(0)
+	case <-time.After(10 * time.Second): // failure time-out: the signal was not served
+		os.Exit(4)
+	}
+}
+
+// sigProcSession: see sigChild.
+func sigProcSession(r *hx.Run, id string, mask uint32, dm bool) error {
+	var before, after []string
+	env := ""
+	code, killed := 0, false
+	for try := 0; try < 6; try++ {
+		before, after, env, killed = nil, nil, "", false
+		cmd := exec.Command(os.Args[0], "-sigchild", fmt.Sprint(mask), map[bool]string{true: "1", false: "0"}[dm])
+		pipe, err := cmd.StdoutPipe()
+		if err != nil {
+			return err
+		}
+		if err := cmd.Start(); err != nil {
+			return err
+		}
+		sc := bufio.NewScanner(pipe)
+		sc.Buffer(make([]byte, 1<<20), 1<<20)
+		seenP := false
+		for sc.Scan() {
+			l := sc.Text()
+			switch {
+			case strings.HasPrefix(l, "E "):
+				env = l[2:]
+			case l == "P":
+				seenP = true
+				cmd.Process.Signal(syscall.SIGTERM) // the real thing, through os/signal
+			case strings.HasPrefix(l, "W "):
+				h := l[2:]
+				if h == "-" {
+					h = ""
+				}
+				if seenP {
+					after = append(after, h)
+				} else {
+					before = append(before, h)
+				}
+			}
+		}
+		err = cmd.Wait()
+		code = 0
+		if ee, ok := err.(*exec.ExitError); ok {
+			code = ee.ExitCode()
+			if ws, ok := ee.Sys().(syscall.WaitStatus); ok && ws.Signaled() {
+				killed = true
+			}
+		}
+		if code != 5 {
+			break
+		}
+		r.Count("startup-disturbed-retry")
+	}
+	if code == 5 || env == "" {
+		r.Count("startup-disturbed-giveup")
+		r.Case(id)
+		r.Emit("incomplete startup", "-")
+		return nil
+	}
+	r.Case(id)
+	r.Emit(env, "-")
+	j := func(l []string) string {
+		s := strings.Join(l, "")
+		if s == "" {
+			return "-"
+		}
+		return s
+	}
+	r.Emit("bytes0", j(before))
+	switch {
+	case killed:
+		r.Emit("closeby signal 1 1 2 2 6", "killed")
+		r.Count("sigproc-killed")
+	case code == 4:
+		r.Emit("closeby signal 1 1 2 2 6", "hang")
+		r.Count("sigproc-hang")
+	default:
+		r.Emit("closeby signal 1 1 2 2 6", j(after))
+		r.Count("sigproc-sessions")
+	}
+	return nil
 }
 
 // capability bits of fakeconsole.CapNames that matter for start-up / shutdown
@@ -508,6 +640,13 @@ func run(r *hx.Run) error {
 	panics := []uint32{0, 1<<4 | 1<<1, 1<<0 | 1<<2 | 1<<3 | 1<<14 | 1<<11, 1<<4 | 1<<0 | 1<<2 | 1<<15 | 1<<3 | 1<<14 | 1<<11 | 1<<1}
 	for i, m := range panics {
 		if err := panicSession(r, fmt.Sprintf("panic-%d", i), m, i%2 == 1); err != nil {
+			return err
+		}
+	}
+	// a real SIGTERM delivered through os/signal to a Vaxis with its handlers installed (a process each):
+	// with and without in-band resize (setupSignals branches on it), with and without the mouse
+	for i, m := range []uint32{0, 1 << 14, 1<<14 | 1<<4 | 1<<1 | 1<<11, 1<<0 | 1<<2 | 1<<3 | 1<<15} {
+		if err := sigProcSession(r, fmt.Sprintf("sigproc-%d", i), m, i%2 == 1); err != nil {
 			return err
 		}
 	}
